@@ -13,7 +13,19 @@ NOTE = ("theorems over the Gallina handler/table model for all states and datagr
 def checker(sc, meta, log, tr):
     rm = render_map(log)
     out = []
-    known_aids = set(tr.aids.values())
+    # action prefixes under which this node actually SENT a request (handler sends and bootstrap-task sends), plus the
+    # refresh activity's prefix (property: "an action prefix the node never used")
+    known_aids = set()
+    if 0 in tr.aids:
+        known_aids.add(tr.aids[0])
+    naddr_txt = sc.node["addr"].script()
+    for (t0_, kind0, body0) in log:
+        if kind0 == "WIRE":
+            head0, _, rendered0 = body0.partition(" | ")
+            if head0.split()[0] == naddr_txt and " q=" in " " + rendered0:
+                tid0 = rendered0.split(" ")[0][2:]
+                if len(tid0) == 16:
+                    known_aids.add(int(tid0[:10], 16))
     own_addr = sc.node["addr"].script()
     for e in tr.events:
         if e["kind"] != "EV_MSG":
@@ -60,6 +72,10 @@ def checker(sc, meta, log, tr):
 
 
 def gen(rng, consts, i):
+    if i % 8 == 5:
+        return nodegen.gen_stillborn(rng, consts)
+    if i % 4 == 3:
+        return nodegen.gen_bootstrap(rng, consts)          # routers and overlapping router/node contacts
     if i % 3 == 2:
         return nodegen.gen_lookup(rng, consts, hostile=True, faults=False, early=False)
     return nodegen.gen_server(rng, consts, many_peers=False, long_times=(i % 4 == 1))
@@ -68,7 +84,7 @@ def gen(rng, consts, i):
 def run(res):
     return nodeprop.run(
         res, PROP, NOTE, gen, checker, 16, 300,
-        "family A (server traffic incl. unsolicited responses with 0/2/8/12-byte ids, errors, garbage, node lists naming "
+        "bootstrap scenarios with routers (a router must never be listed as a contact, whoever names it and whenever it answers), family A (server traffic incl. unsolicited responses with 0/2/8/12-byte ids, errors, garbage, node lists naming "
         "arbitrary nodes) and family B (searching node under forged responses: wrong action prefix, wrong message id, right id "
         "from another source, replays) scenarios; the checker audits the real node's table operations (hook log) per handled "
         "datagram and its contacts (API); every event is replayed through the Coq model. distinct = distinct scenarios.",
